@@ -339,6 +339,8 @@ func coveringDesigns(prop string) []*dg.Design {
 			dg.F("ro", dg.Ref("ReqOnly")),
 			dg.F("arr_ro", dg.ArrayOf(dg.A(dg.Ref("ReqOnly")))),
 			dg.F("arr2_ro", dg.ArrayOf(dg.A(dg.ArrayOf(dg.A(dg.Ref("ReqOnly")))))),
+			dg.F("map_ro", dg.MapOf(dg.A(dg.Prim("String")), dg.A(dg.Ref("ReqOnly")))),
+			dg.F("arrmap_ro", dg.ArrayOf(dg.A(dg.MapOf(dg.A(dg.Prim("String")), dg.A(dg.Ref("ReqOnly")))))),
 			dg.F("arr2_in", dg.ArrayOf(dg.A(dg.ArrayOf(dg.A(dg.Ref("Inner")))))),
 			dg.F("plain", dg.Ref("Plain"))))
 		s.Methods = append(s.Methods, method("m_user", "POST", "/nested/user", &userP, nil))
@@ -411,9 +413,12 @@ func witnessDesigns() []*dg.Design {
 	d := &dg.Design{Name: "wit_findings", Features: []string{"witness"}}
 	d.Types = []*dg.UserType{{Name: "ReqOnly", Base: dg.Obj(dg.Req("a", dg.Prim("String")), dg.Req("b", dg.Prim("Int")), dg.F("c", dg.Prim("Boolean")))}}
 	s := &dg.Service{Name: "wit"}
-	// map values of a user type whose only validations are required primitive attributes
+	// user types whose only validations are required primitive attributes, below maps: directly as map
+	// value and in an array of maps (validated since the repair of recurseValidationCode), as element of
+	// an array / value of a map that is itself a map value (still not validated: recorded finding)
 	mr := dg.A(dg.Obj(dg.F("map_ro", dg.MapOf(dg.A(dg.Prim("String")), dg.A(dg.Ref("ReqOnly")))), dg.F("arr_ro", dg.ArrayOf(dg.A(dg.Ref("ReqOnly")))),
 		dg.F("maparr_ro", dg.MapOf(dg.A(dg.Prim("String")), dg.A(dg.ArrayOf(dg.A(dg.Ref("ReqOnly")))))),
+		dg.F("mapmap_ro", dg.MapOf(dg.A(dg.Prim("String")), dg.A(dg.MapOf(dg.A(dg.Prim("String")), dg.A(dg.Ref("ReqOnly")))))),
 		dg.F("arrmap_ro", dg.ArrayOf(dg.A(dg.MapOf(dg.A(dg.Prim("String")), dg.A(dg.Ref("ReqOnly"))))))))
 	s.Methods = append(s.Methods, method("w_mapro", "POST", "/wit/mapro", &mr, nil))
 	// absent optional array / map carrying MinLength > 0
